@@ -1,8 +1,12 @@
 package main
 
 import (
+	"flag"
 	"fmt"
 	"os"
+	"sort"
+	"strings"
+	"sync"
 	"time"
 
 	"golang.org/x/tools/go/packages"
@@ -10,29 +14,222 @@ import (
 	"golang.org/x/tools/go/ssa/ssautil"
 )
 
-func main() {
+type World struct {
+	prog      *ssa.Program
+	pkgs      map[string]*ssa.Package
+	ppkgs     []*packages.Package
+	contracts map[string]*Contract
+	lemmas    []*Lemma
+	fns       map[string]*ssa.Function // by fnName
+	loadSecs  float64
+}
+
+func repoDir() string {
+	if d := os.Getenv("VERIF_REPO"); d != "" {
+		return d
+	}
+	return "/repo"
+}
+
+func LoadWorld() (*World, error) {
 	t0 := time.Now()
 	cfg := &packages.Config{
 		Mode: packages.NeedName | packages.NeedFiles | packages.NeedCompiledGoFiles | packages.NeedImports | packages.NeedTypes | packages.NeedTypesSizes | packages.NeedSyntax | packages.NeedTypesInfo,
-		Dir:  "/repo",
+		Dir:  repoDir(),
 		Env:  append(os.Environ(), "GOWORK=off", "GOFLAGS=-mod=readonly -tags=verif", "GOPROXY=off", "GOSUMDB=off", "GOTOOLCHAIN=local"),
 	}
 	pkgs, err := packages.Load(cfg, "./x/cctp/keeper", "./x/cctp/types", "./x/cctp", "./x/cctp/client/cli")
 	if err != nil {
-		panic(err)
+		return nil, err
 	}
 	for _, p := range pkgs {
 		for _, e := range p.Errors {
-			fmt.Println("ERR", e)
+			return nil, fmt.Errorf("package %s: %v", p.PkgPath, e)
 		}
 	}
 	prog, spkgs := ssautil.Packages(pkgs, ssa.InstantiateGenerics)
 	prog.Build()
-	fmt.Println(len(spkgs), time.Since(t0))
+	w := &World{prog: prog, pkgs: map[string]*ssa.Package{}, ppkgs: pkgs, contracts: map[string]*Contract{}, fns: map[string]*ssa.Function{}}
 	for _, sp := range spkgs {
-		if sp != nil && sp.Pkg.Name() == "keeper" {
-			ms := prog.LookupMethod(sp.Type("msgServer").Type(), sp.Pkg, "UpdatePauser")
-			ms.WriteTo(os.Stdout)
+		if sp != nil {
+			w.pkgs[sp.Pkg.Path()] = sp
 		}
 	}
+	for fn := range ssautil.AllFunctions(prog) {
+		if isRepoFn(fn) && fn.Blocks != nil && fn.Synthetic == "" {
+			w.fns[fnName(fn)] = fn
+		}
+	}
+	for _, f := range FindContractFiles(repoDir()) {
+		cf, err := ParseContractFile(f)
+		if err != nil {
+			return nil, err
+		}
+		for _, c := range cf.Contracts {
+			if _, dup := w.contracts[c.Key]; dup {
+				return nil, fmt.Errorf("duplicate contract for %s", c.Key)
+			}
+			w.contracts[c.Key] = c
+		}
+		w.lemmas = append(w.lemmas, cf.Lemmas...)
+	}
+	w.loadSecs = time.Since(t0).Seconds()
+	return w, nil
 }
+
+// discharge runs the solver on every obligation that is not syntactically decided.
+func discharge(obls []*Obligation, timeoutMs int) {
+	var wg sync.WaitGroup
+	for _, o := range obls {
+		if o.Res.Status != "" {
+			continue
+		}
+		if o.Goal == TFalse && len(o.Assumes) == 0 {
+			o.Res = SolverResult{Status: "sat", Solver: "syntactic"}
+			continue
+		}
+		o := o
+		asserts := append(append([]*Term{}, o.Assumes...), Not(o.Goal))
+		var modelTerms []*Term
+		for _, in := range o.Inputs {
+			if in.T.Sort == SBool || bvWidth(in.T.Sort) > 0 {
+				modelTerms = append(modelTerms, in.T)
+			}
+		}
+		prelude := buildPrelude(usedSymbols(append(append([]*Term{}, asserts...), modelTerms...)))
+		text := Script(asserts, prelude, modelTerms)
+		wg.Add(1)
+		go func() {
+			defer wg.Done()
+			o.Res = Solve(text, timeoutMs)
+			if o.Res.Status != "unsat" && os.Getenv("GOVC_KEEP") != "" {
+				os.WriteFile(fmt.Sprintf("%s/%s.smt2", os.Getenv("GOVC_KEEP"), sanitize(o.Name)), []byte(text), 0o644)
+			}
+		}()
+	}
+	wg.Wait()
+}
+
+func main() {
+	if len(os.Args) < 2 {
+		fmt.Println("usage: govc verify <fn>... | check <property> <tier>")
+		os.Exit(2)
+	}
+	initScratch()
+	code := 0
+	func() {
+		defer cleanupScratch()
+		switch os.Args[1] {
+		case "verify":
+			code = cmdVerify(os.Args[2:])
+		case "check":
+			code = cmdCheck(os.Args[2:])
+		case "list":
+			code = cmdList()
+		default:
+			fmt.Println("unknown command")
+			code = 2
+		}
+	}()
+	os.Exit(code)
+}
+
+func cmdList() int {
+	w, err := LoadWorld()
+	if err != nil {
+		fmt.Println("load:", err)
+		return 2
+	}
+	var ks []string
+	for k := range w.fns {
+		ks = append(ks, k)
+	}
+	sort.Strings(ks)
+	for _, k := range ks {
+		c := ""
+		if _, ok := w.contracts[k]; ok {
+			c = " [contract]"
+		}
+		fmt.Println(k + c)
+	}
+	return 0
+}
+
+func cmdVerify(args []string) int {
+	fs := flag.NewFlagSet("verify", flag.ExitOnError)
+	timeout := fs.Int("t", 10000, "solver timeout ms")
+	verbose := fs.Bool("v", false, "verbose")
+	all := fs.String("all", "", "verify all contracted functions of a layer (L2, L3, all)")
+	fs.Parse(args)
+	w, err := LoadWorld()
+	if err != nil {
+		fmt.Println("load:", err)
+		return 2
+	}
+	ex := NewExec(w.prog, w.pkgs, w.contracts)
+	ex.runInit()
+	bad := 0
+	keys := fs.Args()
+	if *all != "" {
+		keys = nil
+		for k, c := range w.contracts {
+			if c.Trusted || w.fns[k] == nil {
+				continue
+			}
+			if *all == "all" || c.Layer == *all {
+				keys = append(keys, k)
+			}
+		}
+		sort.Strings(keys)
+	}
+	for _, key := range keys {
+		fn := w.fns[key]
+		c := w.contracts[key]
+		if fn == nil || c == nil {
+			fmt.Printf("%s: function or contract not found (fn=%v contract=%v)\n", key, fn != nil, c != nil)
+			bad++
+			continue
+		}
+		ex.obls = nil
+		t0 := time.Now()
+		ex.VerifyFunction(fn, c)
+		gen := time.Since(t0)
+		discharge(ex.obls, *timeout)
+		byName := map[string][]*Obligation{}
+		var names []string
+		for _, o := range ex.obls {
+			if _, ok := byName[o.Name]; !ok {
+				names = append(names, o.Name)
+			}
+			byName[o.Name] = append(byName[o.Name], o)
+		}
+		fmt.Printf("== %s: %d obligation instances, %d names, gen %.2fs, total %.2fs\n", key, len(ex.obls), len(names), gen.Seconds(), time.Since(t0).Seconds())
+		for _, n := range names {
+			status := "ok"
+			detail := ""
+			for _, o := range byName[n] {
+				if o.Res.Status != "unsat" {
+					status = "FAIL(" + o.Res.Status + ")"
+					detail = fmt.Sprintf(" path=%s note=%s %s", o.Path, o.Note, strings.TrimSpace(firstN(o.Res.Model, 600)))
+					if *verbose {
+						detail += "\n   goal: " + o.Goal.String()
+					}
+					bad++
+					break
+				}
+			}
+			if status != "ok" || *verbose {
+				fmt.Printf("  %-6s %s (%d)%s\n", status, n, len(byName[n]), detail)
+			}
+		}
+		for _, n := range ex.fnNotes[key] {
+			fmt.Println("  note:", n)
+		}
+	}
+	if bad > 0 {
+		return 1
+	}
+	return 0
+}
+
+func cmdCheck(args []string) int { fmt.Println("not implemented"); return 2 }
